@@ -554,7 +554,7 @@ def _lane_dataflow(body, ptr_dst, ptr_src):
     stored = None
     for ins in body:
         op, args = ins.op, ins.args
-        if op in ("vmovdqu", "vmovdqa", "vmovupd", "vmovapd", "movq", "movl", "vmovd") and len(args) == 2:
+        if op in ("vmovdqu", "vmovdqa", "vmovupd", "vmovapd", "movq", "movl", "vmovd", "vmovq") and len(args) == 2:
             s, d = args
             if s[0] == "mem" and d[0] == "reg":
                 if s[2] == ptr_dst and s[1] == 0 and s[3] is None:
@@ -565,7 +565,7 @@ def _lane_dataflow(body, ptr_dst, ptr_src):
                     val[d[1]] = "?"
             elif s[0] == "reg" and d[0] == "mem":
                 if d[2] == ptr_dst and d[1] == 0 and d[3] is None:
-                    w = 4 if op == "movl" else 8 if op == "movq" else WIDTH_OF_MOVE.get(s[1][:3], 0)
+                    w = 4 if op in ("movl", "vmovd") else 8 if op in ("movq", "vmovq") else WIDTH_OF_MOVE.get(s[1][:3], 0)
                     stored = (val.get(s[1], "?"), w)
                 else:
                     return None        # a store somewhere else
